@@ -54,7 +54,17 @@ func (s *Slice) Apply(inputs []tensor.Tensor) ([]tensor.Tensor, error) {
 		}
 	}
 
-	slices := s.constructSlices(starts, ends, steps, axes, len(data.Shape()))
+	rank := len(data.Shape())
+
+	if len(ends) != len(starts) || len(axes) != len(starts) || len(steps) != len(starts) {
+		return nil, ops.ErrInvalidInput("starts, ends, axes and steps must have the same length", s)
+	}
+
+	if !ops.AllInRange(axes, -rank, rank-1) {
+		return nil, ops.ErrNotAllAxesInRange(rank, rank)
+	}
+
+	slices := s.constructSlices(starts, ends, steps, axes, rank)
 
 	out, err := data.Slice(slices...)
 	if err != nil {
